@@ -111,14 +111,21 @@ def gen_surface(rng, i):
 
 
 def query_points(rng, n, n1, n2, cushion):
-    """n generic fractional points, then the hostile ones: the wrap/blend
-    boundaries (-c, c, 1-c, 0, 1), cell mid points and points a hair off them."""
+    """(generic, boundary, edge): n generic fractional points; hostile points on
+    the wrap/blend boundaries (-c, c, 1-c), cell mid points and points a hair
+    off the cell edge; and points with a coordinate exactly on the cell edge
+    (0, 1, -0.0)."""
     a = rng.uniform(-0.2, 1.2, (n, 2))
-    hard = [-cushion, cushion, 1 - cushion, 0.0, 1.0, 0.5 / n1, 1 - 0.5 / n1, 1 - 1e-9, 1e-9, -1e-9, 1 - cushion - 1e-9]
-    hb = np.array([[hard[int(rng.integers(0, len(hard)))], rng.uniform(0, 1)] for _ in range(4)]
-                  + [[rng.uniform(0, 1), hard[int(rng.integers(0, len(hard)))]] for _ in range(4)]
-                  + [[hard[int(rng.integers(0, 5))], hard[int(rng.integers(0, 5))]] for _ in range(3)])
-    return a, hb
+    hard = [-cushion, cushion, 1 - cushion, 0.5 / n1, 1 - 0.5 / n1, 1 - 1e-9, 1e-9, -1e-9, 1 - cushion - 1e-9, 0.5 / n2, 1 - 0.5 / n2]
+    if cushion == 0.0:
+        hard = hard[3:]
+    pick = lambda lst: lst[int(rng.integers(0, len(lst)))]
+    hb = np.array([[pick(hard), rng.uniform(0.01, 0.99)] for _ in range(4)] + [[rng.uniform(0.01, 0.99), pick(hard)] for _ in range(4)]
+                  + [[pick(hard), pick(hard)] for _ in range(3)])
+    edge = [0.0, 1.0, -0.0]
+    he = np.array([[pick(edge), rng.uniform(0.01, 0.99)] for _ in range(3)] + [[rng.uniform(0.01, 0.99), pick(edge)] for _ in range(3)]
+                  + [[pick(edge), pick(edge)], [pick(edge), pick(hard)]])
+    return a, hb, he
 
 
 def periods(rng, n):
@@ -249,9 +256,10 @@ def gen_pn(rng, i, cls=None):
             hkl = -hkl
         while True:
             p, q = rng.integers(-2, 3, 2)
-            if p or q:
+            xi = p * i1 + q * i2
+            # a line along the hexagonal c axis makes the Stroh eigenproblem degenerate (C12's exclusion)
+            if (p or q) and not (cell == 'hexagonal' and c['K'] == 'stroh' and xi[0] == 0 and xi[1] == 0):
                 break
-        xi = p * i1 + q * i2
         c.update(boxvects=cv, a1vect=a1v, a2vect=a2v, burgers=a1v.copy(), transform=None, xi_uvw=xi, slip_hkl=hkl)
     c['C'] = stiffness(rng, c['K'], cell)
     # settings
